@@ -9,6 +9,7 @@
  *   w <idx> <len>                         digital_rf_write_hdf5
  *   b <len> <k> g0 d0 g1 d1 ...           digital_rf_write_blocks_hdf5
  *   n <idx> <len>                         digital_rf_write_hdf5 with NULL vector
+ *   sleep <us>                            usleep (pacing of free-running schedules)
  *   cid <c>                               payload call number for the next write op
  *   close
  * script "-" reads ops from stdin and echoes every END line to stdout (interactive sessions)
@@ -185,6 +186,18 @@ int main(int argc, char **argv)
 			else rc = digital_rf_write_blocks_hdf5(obj, g, dd, k, buf, len);
 			free(buf); free(g); free(dd);
 			call++;
+		}
+		else if (!strcmp(op, "sleep"))
+		{
+			/* pacing for free-running schedules: sleep <microseconds> */
+			uint64_t us;
+			if (fscanf(fp, "%" SCNu64, &us) != 1) { fprintf(stderr, "bad sleep\n"); return 2; }
+			usleep((useconds_t)us);
+			snprintf(line, sizeof(line), "END %ld 0 0 |\n", opno);
+			logline(line);
+			if (interactive) { fputs(line, stdout); fflush(stdout); }
+			opno++;
+			continue;
 		}
 		else if (!strcmp(op, "cid"))
 		{
